@@ -1,10 +1,16 @@
 (* Extract.v — extraction of the executable MODEL and SPEC to OCaml for the correspondence
    driver.  ExtrOcamlBasic only (bool, option, list, prod, unit, sumbool -> OCaml's own);
-   nat, positive, N, Z stay Coq datatypes.  No Extract Constant directives. *)
+   nat, positive, N, Z stay Coq datatypes.  No Extract Constant directives.
+   Run coqc with the ocaml/ directory as working directory (files land in the cwd). *)
 From Coq Require Import Extraction ExtrOcamlBasic.
-From TV Require Import Base Index.
+From TV Require Import Base Index AP Iter Mem Spec Guards Run.
 Extraction Language OCaml.
 Extraction "model.ml"
   size dot rank_rm rank_cm unrank coords inboxb
   calc_strides calc_strides_cm ltoi itol unsafe_permute is_monotonic shape_eq
-  slice_details at_index window_at window_setat.
+  slice_details at_index window_at window_setat
+  ap_S shape_S ap_T broadcast_strides
+  new_iter iter_next iter_reset iter_set_dir iter_all miter_next_validity miter_seek
+  get_t is_materializable requires_iterator is_cm is_nc is_tr
+  guard_op flag_soundb
+  step_model step_spec obs_model obs_spec ntens_model ntens_spec empty_store empty_sstate.
